@@ -45,3 +45,20 @@ def chain_m2(inputs, delay_scale=0.0):
     if delay_scale:
         time.sleep(delay_scale * ((u * 7919 + x1 * 104729) % 1.0))
     return {'v': np.sin(u) + x1 ** 2}
+
+
+def mf_model(inputs, model_fidelity=(0,), delay_scale=0.0):
+    """multi-fidelity model: the fidelity index changes the result, so a task that sees another sample's fidelity is visible"""
+    x0, x1 = float(np.atleast_1d(inputs['x0'])[0]), float(np.atleast_1d(inputs['x1'])[0])
+    a = int(model_fidelity[0])
+    if delay_scale:
+        time.sleep(delay_scale * ((x0 * 7919 + x1 * 104729) % 1.0))
+    return {'y0': np.exp(0.4 * x0) + x1 ** 2 + 0.5 ** (a + 1) * np.cos(3 * x0), 'y1': np.sin(x0 * x1) + 0.1 * a}
+
+
+def mf_chain_m1(inputs, model_fidelity=(0,), delay_scale=0.0):
+    x0, x1 = float(np.atleast_1d(inputs['x0'])[0]), float(np.atleast_1d(inputs['x1'])[0])
+    a = int(model_fidelity[0])
+    if delay_scale:
+        time.sleep(delay_scale * ((x0 * 7919 + x1 * 104729) % 1.0))
+    return {'u': np.exp(0.5 * x0) + 0.3 * x1 + 0.25 ** (a + 1) * np.sin(4 * x0)}
